@@ -164,7 +164,7 @@ def run(ctx: Ctx) -> None:
     ctx.prove(['g_rules', 'g_tokendef'])
     rnd = ctx.rnd
     parser = SyntaxParser(gr, gt)
-    N = ctx.n(300, 20000) * (4 if ctx.broken else 1)
+    N = ctx.n(300, 6000) * (4 if ctx.broken else 1)
     cases, raw = [], []
 
     # ---- the obligations on the real files, executed on the implementation too ----
